@@ -459,7 +459,6 @@ func checkBadNodes(e *Entry, s string, res ParseResult) (viol map[string]string,
 			if v.Parent >= 0 {
 				wrapper = oracle.TypeName(vs[v.Parent].Node)
 			}
-			_ = i
 			if ref == nil {
 				ref, refStates = recoveryLexFrom(s, lexState{})
 			}
@@ -469,6 +468,41 @@ func checkBadNodes(e *Entry, s string, res ParseResult) (viol map[string]string,
 				continue
 			}
 			spans = append(spans, span{np, ne, wrapper})
+			// skipped tokens were not consumed: the Bad node's range overlaps no node outside its own ancestor chain
+			if ne > np {
+				anc := map[int]bool{}
+				for j := i; j >= 0; j = vs[j].Parent {
+					anc[j] = true
+				}
+				for j, w := range vs {
+					if anc[j] || oracle.IsNilNode(w.Node) {
+						continue
+					}
+					// descendants of the Bad node's wrapper chain are not expected (a BadNode is a leaf); anything else must be disjoint
+					isDesc := false
+					for q := w.Parent; q >= 0; q = vs[q].Parent {
+						if q == i {
+							isDesc = true
+							break
+						}
+					}
+					if isDesc {
+						continue
+					}
+					if _, other := w.Node.(*ast.BadNode); other {
+						continue // Bad-vs-Bad overlap is reported separately
+					}
+					wp, we, ok := safePosEnd(w.Node)
+					if !ok || wp < 0 || we <= wp || we > len(s) {
+						continue
+					}
+					// only nodes that do not contain the Bad node entirely (an enclosing sibling subtree cannot exist: ancestors were excluded)
+					if wp < ne && np < we {
+						viol["C10/overlaps-consumed-node/"+wrapper+"/"+oracle.TypeName(w.Node)] = fmt.Sprintf("%s(%q): Bad node [%d,%d) under %s overlaps %s at %s [%d,%d), which is not one of its ancestors: a skipped token was also consumed", e.Name, s, np, ne, wrapper, oracle.TypeName(w.Node), w.Path, wp, we)
+						break
+					}
+				}
+			}
 			if len(b.Tokens) == 0 {
 				if np != ne {
 					viol["C10/empty-tokens-nonempty-range/"+wrapper] = fmt.Sprintf("%s(%q): Bad node [%d,%d) has no tokens", e.Name, s, np, ne)
